@@ -218,6 +218,8 @@ func runC14(c *fw.Ctx) {
 		disk := fmt.Sprintf("/verif-stub/%s/%d/%d/%s", c.Prop.ID, c.Seed, c.Idx, "s")
 		version := int64(2)
 		m := lab.NewMPT(st.db, version, root)
+		var vbox lab.ValueBox
+		defer func() { c.Count("inserts_with_a_reused_value_object", vbox.Used) }()
 		nops := 10 + r.Intn(40)
 		for i := 0; i < nops; i++ {
 			if r.Intn(7) == 0 {
@@ -233,7 +235,7 @@ func runC14(c *fw.Ctx) {
 			} else {
 				v := genSepValue(r, i)
 				c.Tracef("ins %q=%q", p, v)
-				if _, err := m.Insert(util.Path(p), &lab.Val{B: v}); err != nil {
+				if _, err := m.Insert(util.Path(p), vbox.V(v)); err != nil {
 					c.Violate("", "Insert(%q) failed: %v", p, err)
 					return
 				}
